@@ -5,7 +5,7 @@ from framework.report import Report
 
 RULE = ("fault space enumerated: worker w in 0..k-1 x k in {1,2,3,4} x death point in {before the first message, "
         "before/after every solution message the worker would send, just before the completion marker} x manner in "
-        "{SIGKILL, os._exit(1), uncaught exception} x operation in {enumeration, minimise, maximise} on two small "
+        "{SIGKILL, os._exit(1), os._exit(0) without the completion marker, uncaught exception} x operation in {enumeration, minimise, maximise} on two small "
         "models, real forked workers (faults injected from the harness, inherited through fork). Verdict per case by a "
         "structural oracle: 'no producer alive and the caller inside Queue.get(timeout=None)' = blocked forever; a "
         "caller that polls gets 60 s after the last worker's death. returned => sub-multiset of the sequential "
@@ -18,7 +18,7 @@ def main(tier, seed):
     rep = Report("C18", tier, seed, "fault_enumeration", RULE)
     nchunks = 16
     jobs = [Job("framework.props.mpfamily", "run_mp_faults",
-                {"tier": tier, "chunk": c, "nchunks": nchunks, "limit": 8 if q else None, "seed": seed,
+                {"tier": tier, "chunk": c, "nchunks": nchunks, "limit": 10 if q else None, "seed": seed,
                  "deadline_s": 150 if q else 1500},
                 mode="interp" if c % 4 else "jit", timeout=400 if q else 2400, tag="faults:%d" % c, stall_s=200)
             for c in range(nchunks)]
